@@ -41,6 +41,9 @@ type c17Step struct {
 var c17InFaults = []string{
 	"none", "dup", "skip", "field", "wrong-device", "wrong-direction", "bad-checksum", "bad-length",
 	"lone-block0", "block0-start", "block0-mid", "t4-gap", "short-pause", "ebit-early", "ebit-missing", "paced",
+	// a complete foreign single-block message (checksum-valid, E-bit set) INSERTED between two blocks of M: it is not
+	// for this end (wrong direction / another device), so it is dropped and M goes on undisturbed
+	"stray-wrong-direction", "stray-wrong-device",
 }
 
 func c17InTotal(env *fw.Env) int64 { return int64(env.Pick(1024, 24000)) }
@@ -222,7 +225,7 @@ func c17InGen(r *rand.Rand, g int64, cfg c17Cfg) (c17InCase, []c17Step) {
 	// shape of M and the target block i (1-based), fixed before the sequence is built
 	k := 1 + r.IntN(4)
 	switch c.Fault {
-	case "field", "t4-gap", "short-pause", "ebit-early", "ebit-missing", "block0-start":
+	case "field", "t4-gap", "short-pause", "ebit-early", "ebit-missing", "block0-start", "stray-wrong-direction", "stray-wrong-device":
 		k = 2 + r.IntN(3)
 	case "block0-mid":
 		k = 3 + r.IntN(2)
@@ -246,7 +249,7 @@ func c17InGen(r *rand.Rand, g int64, cfg c17Cfg) (c17InCase, []c17Step) {
 		i = 1
 	case "block0-mid":
 		i = 2 + r.IntN(k-2) // never the E-bit block: a block 0 with E-bit is a lone single-block message
-	case "t4-gap", "short-pause":
+	case "t4-gap", "short-pause", "stray-wrong-direction", "stray-wrong-device":
 		i = 2 + r.IntN(k-1)
 	case "ebit-early":
 		i = 1 + r.IntN(k-1)
@@ -325,6 +328,18 @@ func c17InGen(r *rand.Rand, g int64, cfg c17Cfg) (c17InCase, []c17Step) {
 			mb := b
 			mb.R = !mb.R
 			steps = append(steps, valid(mb, tag+"(wrong direction)"))
+		case "stray-wrong-direction", "stray-wrong-device":
+			x := newMsg(1, 1+r.IntN(40), 3)[0]
+			if c.Fault == "stray-wrong-direction" {
+				x.R = !x.R
+				steps = append(steps, valid(x, "X(foreign single block, wrong direction)"))
+			} else {
+				for x.Device == cfg.Dev {
+					x.Device = []uint16{cfg.Dev ^ 1, (cfg.Dev + 1) & 0x7FFF, 0x7FFF - cfg.Dev}[r.IntN(3)]
+				}
+				steps = append(steps, valid(x, fmt.Sprintf("X(foreign single block, device %d)", x.Device)))
+			}
+			steps = append(steps, valid(b, tag))
 		case "bad-checksum":
 			raw := b.Wire()
 			p := 1 + r.IntN(len(raw)-1)
